@@ -33,8 +33,8 @@ ENDS = (("high", "TMin", "HighT"), ("high", "TMax", "HighT"),
 def continuity_residuals(th, names=("p", "dp", "ddp", "csq")):
     """List of dicts, one per (phase, end, function): value reported at T_b (tabulated
     branch), value at T_b(1 -+ 4 eps) on the extrapolated side, jump and allowed jump.
-    The slope entering the allowance is measured on the tabulated side by a one-sided
-    difference over 1e-6 T_b (the spline's ddp is piecewise linear, so this is its slope)."""
+    The slope entering the allowance is measured on both sides by one-sided differences
+    over 1e-6 T_b (the spline's ddp is piecewise linear, so this is its slope there)."""
     rows = []
     for phase, end, sfx in ENDS:
         Tb = float(getattr(th, end + sfx))
@@ -45,6 +45,7 @@ def continuity_residuals(th, names=("p", "dp", "ddp", "csq")):
         sgn = -1.0 if end == "TMin" else 1.0          # direction of the extrapolated side
         Tout = Tb * (1 + sgn * 4 * EPS)
         Tin = Tb * (1 - sgn * 1e-6)
+        Tfar = Tb * (1 + sgn * 1e-6)
         other = float(getattr(th, ("TMax" if end == "TMin" else "TMin") + sfx))
         if not min(Tb, other) <= Tin <= max(Tb, other):
             Tin = 0.5 * (Tb + other)
@@ -53,14 +54,24 @@ def continuity_residuals(th, names=("p", "dp", "ddp", "csq")):
             vb = {k: float(f(Tb)) for k, f in fn.items()}
             vout = {k: float(f(Tout)) for k, f in fn.items()}
             vin = {k: float(f(Tin)) for k, f in fn.items()}
+            vfar = {k: float(f(Tfar)) for k, f in fn.items()}
         except Exception as exc:      # noqa: BLE001 - a raising EOS is what we report
             rows.append({"phase": phase, "end": end, "f": "raises", "Tb": Tb, "ok": False,
                          "note": repr(exc)[:200]})
             continue
         for k in names:
+            # slopes on either side by one-sided differences over 1e-6 T_b (third derivatives
+            # are not continuous, so ddp has different slopes inside and outside)
             slope = abs(vin[k] - vb[k]) / abs(Tin - Tb) if Tin != Tb else 0.0
+            s_out = abs(vfar[k] - vout[k]) / abs(Tfar - Tout)
+            if math.isfinite(s_out):
+                slope = max(slope, s_out)
+            # e = T dp - p can cancel almost completely: its rounding is that of its operands
+            scale = abs(vb[k])
+            if k == "e" and "p" in vb and "w" in vb:
+                scale += abs(vb["p"]) + abs(vb["w"])
             jump = abs(vout[k] - vb[k])
-            allowed = slope * 8 * EPS * Tb + 1e-12 * abs(vb[k])
+            allowed = slope * 8 * EPS * Tb + 1e-12 * scale
             ok = bool(math.isfinite(vout[k]) and math.isfinite(vb[k]) and jump <= allowed)
             rows.append({"phase": phase, "end": end, "f": k, "Tb": Tb, "inside": vb[k],
                          "outside": vout[k], "jump": jump, "allowed": allowed, "ok": ok})
